@@ -161,6 +161,34 @@ def _run(pid, tier):
                     t = mgmodel.record(ad, [{"op": "decompose_columns", "args": [[geo.columnlist[0].name]]}])
                     traces.append(t)
                     meta.append(("poly%d-surface0" % (4 + k), t))
+    # refinement followed by splitting the quadrilaterals the refinement made (the new columns' own bookkeeping is used)
+    for kind_ in ("3x2", "3x3") if quick else ("2x2", "3x2", "3x3", "wt"):
+        base_ = mgmodel.Adapter(mgmodel.lattice_mesh(kind_))
+        base_.project()
+        old_names = set(c_.name for c_ in base_.geo.columnlist)
+        names_ = [c_.name for c_ in base_.geo.columnlist]
+        for sub in ([names_[0], names_[1]], [names_[-1]], names_[:len(names_) // 2]):
+            ad = _copy.deepcopy(base_)
+            t = mgmodel.record(ad, [{"op": "refine", "args": [sub, False, False]}])
+            if "error" in t[-1]:
+                traces.append(t)
+                meta.append((kind_ + "-refine-split", t))
+                continue
+            newq = [c_ for c_ in ad.geo.columnlist if c_.name not in old_names and c_.num_nodes == 4]
+            for c_ in (rng.sample(newq, min(len(newq), 3 if quick else 8))):
+                ad2 = _copy.deepcopy(ad)
+                c2 = ad2.geo.column[c_.name]
+                t2 = t[:-1] + [dict(t[-1])] + mgmodel.record(ad2, [{"op": "split_column", "args": [c2.name, c2.node[rng.randrange(4)].name]}])[1:]
+                traces.append(t2)
+                meta.append((kind_ + "-refine-split", t2))
+    # a triangle with two extra nodes on one side (five nodes, two adjacent straight angles), every start of its node cycle
+    for rot in range(5):
+        for args in ([["  a"]], [[]]):
+            geo = mgmodel.tri2_mesh(mm, 0, rot)
+            ad = mgmodel.Adapter(geo)
+            t = mgmodel.record(ad, [{"op": "decompose_columns", "args": [[geo.columnlist[0].name]] if args[0] else [[]]}])
+            traces.append(t)
+            meta.append(("tri2", t))
     # ---- C2S (b): random sequences on larger lattice meshes
     for _ in range(3 if quick else 30):
         nx, ny = rng.randint(3, 7 if quick else 12), rng.randint(2, 6 if quick else 12)
@@ -232,10 +260,13 @@ def _run(pid, tier):
                 rep.violation(act["op"], ",".join(bad),
                               {"mesh": kind, "actions": [e["act"] for e in t[:f["l"] + 1]],
                                "failing": f["failing"]})
-            elif f["drift"] and not f["failing"] and not any(g["l"] == f["l"] and g["failing"] for g in fs):
+            elif f["drift"] and not f["failing"] and not any(g["l"] == f["l"] and g["failing"] for g in fs) \
+                    and t[f["l"]]["state"].get("lattice", True) and t[max(0, f["l"] - 1)]["state"].get("lattice", True):
+                # (on states off the lattice the projected coordinates are rounded: the exact actions are not compared there)
                 ndrift += 1
                 if ndrift <= 5:
-                    rep.drifted("%s step %s not explained by MulgridADT's action (all clauses hold)" % (kind, json.dumps(act)[:160]))
+                    rep.drifted("%s step %s (after %s) not explained by MulgridADT's action (all clauses hold)"
+                                % (kind, json.dumps(act)[:160], json.dumps([e_["act"] for e_ in t[1:f["l"]]])[:200]))
     for tid, (kind, t) in enumerate(meta):
         first_bad = min([f["l"] for f in by_tid.get(tid, []) if f["failing"]] or [10 ** 9])
         for l, e in enumerate(t):
